@@ -44,6 +44,19 @@ PROPS = {1: [0x4B030100], 2: [0x1F], 3: [0], 4: [0x80000], 5: [0x1000], 7: [0xFF
          14: [0x20000000], 15: [0x10000], 16: [0x12345678], 17: [0], 18: [1, 2, 3, 4], 24: [0x54010000],
          0x30: [0x1234], 0x31: [7]}          # device-specific properties whose numbers no host-side enumeration knows
 UNKNOWN_PROPERTY = 10300
+# memory maps of the twin for the composite calls (get_memory_list): the properties that take an INDEX (internal flash / RAM region number, external
+# memory id) answer per index, every region with its own start / size / sector size.  beyond: what the device answers for a region number it does not
+# have - "err" (kStatus_InvalidArgument) or "wrap" (region 0 again: bootloaders that ignore the index).  ext: memory id -> attribute words | status
+# (10205 = memory not configured, 405 = QSPI not configured; every other id: kStatus_InvalidArgument); None = the property is unknown to the device.
+MEMCFGS = [
+    {"flash": [(0, 0x80000, 0x1000), (0x10000000, 0x40000, 0x800)], "ram": [(0x20000000, 0x10000), (0x1FFF0000, 0x8000)],
+     "ext": {1: [0x1F, 0x68000000, 0x2000, 0x100, 0x1000, 0x10000], 9: 10205, 8: 405, 256: [0x0B, 0x0, 0x40000, 0, 0x20000, 0]}, "beyond": "err"},
+    {"flash": [(0x1000, 0x20000, 0x400), (0x30000, 0x8000, 0x2000), (0x18000000, 0x100000, 0x200)], "ram": [(0x20000000, 0x4000), (0x30000000, 0x2000), (0x4000000, 0x1000)],
+     "ext": {}, "beyond": "wrap"},
+    {"flash": [(0, 0x40000, 0x800)], "ram": [(0x1FFFE000, 0x6000), (0x20000000, 0x6000)], "ext": None, "beyond": "err"},
+    {"flash": [(0x8000000, 0x10000, 0x100), (0, 0x10000, 0x2000)], "ram": [(0x20000000, 0x800)], "ext": {9: [0x09, 0x60000000, 0, 0, 0x10000, 0], 1: 10205}, "beyond": "wrap"},
+]
+INDEXED = {3: ("flash", 0), 4: ("flash", 1), 5: ("flash", 2), 14: ("ram", 0), 15: ("ram", 1)}
 KEYSTORE = bytes((i * 3 + 1) & 0xFF for i in range(100))        # the key store of the twin (a call of kp_read_key_store names the size of the store: 0 = empty)
 
 
@@ -61,6 +74,24 @@ class Core:
         self.raw = bytearray()
         self.keystore = KEYSTORE
         self.resets = 0
+        self.memcfg = None   # a memory map with indexed properties (None: the flat table, the index word is ignored)
+
+    def lookup(self, prop, idx):
+        """-> (status, values) of GetProperty(prop, idx)"""
+        c = self.memcfg
+        if c is not None and prop in INDEXED:
+            k, f = INDEXED[prop]
+            if idx < len(c[k]):
+                return 0, [c[k][idx][f]]
+            return (0, [c[k][0][f]]) if c["beyond"] == "wrap" else (4, [0])
+        if c is not None and prop == 25:
+            if c["ext"] is None:
+                return UNKNOWN_PROPERTY, [0]
+            a = c["ext"].get(idx, 4)
+            return (0, list(a)) if isinstance(a, list) else (a, [0])
+        if prop in self.props:
+            return 0, self.props[prop]
+        return UNKNOWN_PROPERTY, [0]
 
     def shape(self, tag, flags, params):
         if tag in IN_TAGS:
@@ -105,10 +136,8 @@ class Core:
             out.append(("resp", 0xA0, 0, [tag], True))
         elif shape == "value":
             if tag == 0x07:
-                if params[0] in self.props:
-                    out.append(("resp", 0xA7, 0, self.props[params[0]], True))
-                else:
-                    out.append(("resp", 0xA7, UNKNOWN_PROPERTY, [0], True))
+                st_, vals_ = self.lookup(params[0], params[1] if len(params) > 1 else 0)
+                out.append(("resp", 0xA7, st_, vals_, True))
             else:
                 out.append(("resp", 0xAF, 0, [4, self.once.get(params[0] & 0xFFFFFF, 0)], True))
         elif shape == "in":
@@ -254,7 +283,7 @@ class Twin:
                 wire = b"\x00" * 3 + wire
                 f = "notready"
         ev = {"ev": "d2h", "kind": kind, "fault": f}
-        ev.update({k: v for k, v in info.items() if k in ("status", "devStatus", "final", "n", "chunk")})
+        ev.update({k: v for k, v in info.items() if k in ("status", "devStatus", "final", "n", "chunk", "values")})
         self.trace.append(ev)
         if wire:
             if self.transport == "serial":
@@ -294,7 +323,7 @@ class Twin:
                     self.trace[-1]["fault"] = "err" if self.trace[-1]["fault"] == "none" else self.trace[-1]["fault"]
                     continue
                 payload = struct.pack("<4B", rtag, 0, 0, 1 + len(values)) + struct.pack(f"<{1 + len(values)}I", status, *values)
-                self.emit("resp", payload=payload, status=status, devStatus=status, final=final)
+                self.emit("resp", payload=payload, status=status, devStatus=status, final=final, values=[W(x) for x in values])
             else:
                 chunk += 1
                 self.emit("data", payload=e[1], n=len(e[1]), chunk=chunk)
@@ -435,6 +464,8 @@ OPS = {
     "generate_key_blob": ("outin", 0x13, ["data", "small4", "count"]),
     # property report of the device, plain and after the host interpreted a property for a family with its own property table (history independence)
     "get_property_list": ("value", 0x07, []), "get_property_list_after_family_parse": ("value", 0x07, []),
+    # the memory map of the device, put together from indexed get-property exchanges (the job's length selects the twin's memory configuration)
+    "get_memory_list": ("value", 0x07, []),
 }
 REPORT_OPS = ("get_property_list", "get_property_list_after_family_parse")
 REPORT_REF = {}      # packet size -> reference description, taken in the parent process before any family-specific parsing
@@ -455,6 +486,40 @@ def report_reference(mps):
     mb = McuBoot(proto)
     mb.open()
     return describe(mb.get_property_list())
+
+
+def regions_of(ml):
+    """What get_memory_list reported, as entries (property, index, position of the word in the answer (0: the status), word) + the numbers of regions."""
+    out = []
+    for x in ml.get("internal_flash", []):
+        out += [(3, x.index, 1, x.start), (4, x.index, 1, x.size), (5, x.index, 1, x.sector_size)]
+    for x in ml.get("internal_ram", []):
+        out += [(14, x.index, 1, x.start), (15, x.index, 1, x.size)]
+    for x in ml.get("external_mems", []):
+        if x.value is None:
+            out.append((25, x.mem_id, 0, 10205))         # reported as present but not configured
+            continue
+        out.append((25, x.mem_id, 1, x.value))
+        for pos, val in ((2, x.start_address), (3, None if x.total_size is None else x.total_size // 1024), (4, x.page_size), (5, x.sector_size), (6, x.block_size)):
+            if val is not None:
+                out.append((25, x.mem_id, pos, val))
+    return out, [len(ml.get("internal_flash", [])), len(ml.get("internal_ram", [])), len(ml.get("external_mems", []))]
+
+
+def regions_ref(cfg):
+    """The same for the twin's memory configuration (what a complete and exact report contains)."""
+    out = []
+    for i, (a, b, c_) in enumerate(cfg["flash"]):
+        out += [(3, i, 1, a), (4, i, 1, b), (5, i, 1, c_)]
+    for i, (a, b) in enumerate(cfg["ram"]):
+        out += [(14, i, 1, a), (15, i, 1, b)]
+    ext = {k: v for k, v in (cfg["ext"] or {}).items() if isinstance(v, list) or v == 10205}
+    for k, v in ext.items():
+        if v == 10205:
+            out.append((25, k, 0, 10205))
+        else:
+            out += [(25, k, 1, v[0])] + [(25, k, pos + 1, v[pos]) for pos in range(1, 6) if v[0] & (1 << (pos - 1))]
+    return out, [len(cfg["flash"]), len(cfg["ram"]), len(ext)]
 
 
 def payload(n, salt):
@@ -520,6 +585,9 @@ def do_call(mb, twin, op, length, salt, r=None, len2=None):
             "args": [W(x) for x in ints], "dl": W(len(data)), "db": list(data) if inline else [], "len2": ints[1] if shape == "outin" else 0}
     if op == "kp_read_key_store":
         call["len"] = len(core.keystore)
+    if op == "get_memory_list":
+        core.memcfg = MEMCFGS[length % len(MEMCFGS)]          # state of the device: its memory map
+        call["nreg"] = regions_ref(core.memcfg)[1]
     res = {"ev": "result", "kind": "ret", "val": "fail", "status": 0, "reads": 0, "documented": True, "dataExact": False, "dataLen": 0,
            "devGotExact": False, "devBytes": 0, "valuesExact": False, "exc": "none", "left": 0}
     reads0 = twin.reads
@@ -539,6 +607,8 @@ def do_call(mb, twin, op, length, salt, r=None, len2=None):
                     except SPSDKError:
                         pass
             r_ = mb.get_property_list()
+        elif op == "get_memory_list":
+            r_ = mb.get_memory_list()
         elif op == "efuse_program_once_verify":
             r_ = mb.efuse_program_once(A[0], A[1], verify=True)
         elif op == "reset":
@@ -558,9 +628,14 @@ def do_call(mb, twin, op, length, salt, r=None, len2=None):
             if op in REPORT_OPS:
                 res["val"] = "values" if r_ else "none"
                 res["valuesExact"] = describe(r_) == REPORT_REF.get(twin.mps)
+            elif op == "get_memory_list":
+                res["val"] = "values" if r_ else "none"
+                got, res["nreg"] = regions_of(r_)
+                res["regions"] = [{"prop": a, "idx": W(b), "pos": c_, "val": W(d)} for a, b, c_, d in got]
+                res["valuesExact"] = sorted(got) == sorted(regions_ref(core.memcfg)[0])
             elif op == "get_property":
                 res["val"] = "values" if r_ is not None else "none"
-                res["valuesExact"] = r_ == core.props.get(A[0], [0])
+                res["valuesExact"] = r_ == (core.lookup(A[0], A[1])[1] if core.lookup(A[0], A[1])[0] == 0 else [0])
             elif op == "flash_read_once":
                 res["val"] = "values" if r_ is not None else "none"
                 res["valuesExact"] = r_ == struct.pack("<I", core.once.get(A[0] & 0xFFFFFF, 0))
@@ -780,7 +855,8 @@ def norm(e):
          "documented": bool(e.get("documented", True)), "dataExact": bool(e.get("dataExact", False)), "dataLen": int(e.get("dataLen", 0)),
          "devGotExact": bool(e.get("devGotExact", False)), "devBytes": int(e.get("devBytes", 0)), "valuesExact": bool(e.get("valuesExact", False)),
          "exc": e.get("exc", "none"), "args": e.get("args", []), "dl": e.get("dl", [0, 0]), "db": e.get("db", []), "flags": int(e.get("flags", 0)),
-         "rsv": int(e.get("rsv", 0)), "params": e.get("params", []), "via": e.get("via", "api"), "cli": e.get("cli", NOCLI), "left": int(e.get("left", 0))}
+         "rsv": int(e.get("rsv", 0)), "params": e.get("params", []), "via": e.get("via", "api"), "cli": e.get("cli", NOCLI), "left": int(e.get("left", 0)),
+         "values": e.get("values", []), "regions": e.get("regions", []), "nreg": e.get("nreg", [0, 0, 0])}
     return d
 
 
@@ -832,7 +908,7 @@ def run(tier):
 
     jobs = []
     mps_menu = [32, 64] if tier == "quick" else [32, 64, 200]
-    ops_by_shape = {sh: [op for op, spec in OPS.items() if spec[0] == sh and op != "kp_read_key_store" and op not in REPORT_OPS] for sh in ("cmd", "value", "in", "out")}
+    ops_by_shape = {sh: [op for op, spec in OPS.items() if spec[0] == sh and op != "kp_read_key_store" and op not in REPORT_OPS and op != "get_memory_list"] for sh in ("cmd", "value", "in", "out")}
     for m_ in mps_menu:
         REPORT_REF[m_] = report_reference(m_)
         if len(REPORT_REF[m_]) < 10:
@@ -855,6 +931,12 @@ def run(tier):
                           [("get_property_list_after_family_parse", 0), ("get_property", 0), ("get_property_list", 0)]):
                 jid += 1
                 jobs.append((f"nf-{jid}", transport, mps, calls, None, None, True))
+            # the device's memory map: every memory configuration of the twin (regions that differ per index), alone, repeated, and around other calls
+            # (fault-free only, as for the property report)
+            for k_ in range(len(MEMCFGS)):
+                for calls in ([("get_memory_list", k_)], [("get_property", 0), ("get_memory_list", k_), ("get_property", 0), ("get_memory_list", (k_ + 1) % len(MEMCFGS))]):
+                    jid += 1
+                    jobs.append((f"nf-{jid}", transport, mps, calls, None, None, k_ % 2 == 0))
             for ln in (0, 1, mps, 2 * mps + 3):
                 jid += 1
                 jobs.append((f"nf-{jid}", transport, mps, [("load_image", ln)], None, None, True))
@@ -1002,11 +1084,24 @@ def run(tier):
             del unacked["ev"][last_ack]
             batch += [strip(good2), strip(left), strip(unacked)]
             expect |= {"canary-left", "canary-unacked"}
+        # MirrorPerIndex: an ACCEPTED memory-map report of a device with two or more flash regions; the same trace with the sector size of region 1
+        # reported as that of region 0 (the device never sent it for index 1; the Python-side comparison flag left untouched) must be rejected
+        good3 = next((t for t in traces if t["id"] not in rej and sum(1 for e in t["ev"] if e["ev"] == "call") == 1 and t["ev"][0]["op"] == "get_memory_list"
+                      and t["ev"][0]["nreg"][0] >= 2), None)
+        if good3 is not None:
+            swapped = json.loads(json.dumps(good3))
+            swapped["id"] = "canary-region"
+            regs = swapped["ev"][-1]["regions"]
+            r0 = next(x for x in regs if x["prop"] == 5 and x["idx"] == [0, 0])
+            next(x for x in regs if x["prop"] == 5 and x["idx"] == [0, 1])["val"] = r0["val"]
+            batch += [strip(good3), strip(swapped)]
+            expect |= {"canary-region"}
         crej, _ = tlc.tv("C10", "MbootTrace", batch)
         if set(crej) != expect:
             raise Machinery(f"canary failed: rejected {sorted(crej)}, expected {sorted(expect)}")
         v.extra["canary"] = "fault-free read accepted; the same trace with a short read and status 0 rejected" + (
-            "; history after a zero-length read accepted, rejected with the final response left in the link / not acknowledged" if good2 is not None else "")
+            "; history after a zero-length read accepted, rejected with the final response left in the link / not acknowledged" if good2 is not None else "") + (
+            "; memory-map report accepted, rejected with region 1's sector size reported as region 0's" if good3 is not None else "")
     else:
         v.extra["canary"] = "skipped: no fault-free read of the real code was accepted by the spec (reported as violations)"
     v.traces(len(traces))
